@@ -241,6 +241,10 @@ func VerifyWithCustomWOTSParamW(message, signature []uint8, extendedPK [Extended
 	}
 
 	hashFunction := desc.GetHashFunction()
+	if hashFunction != SHA2_256 && hashFunction != SHAKE_128 && hashFunction != SHAKE_256 {
+		// coreHash computes nothing for an unknown hash function id: every node would be zero
+		return false
+	}
 
 	k := WOTSParamK
 	w := wotsParamW
